@@ -12,6 +12,7 @@ import (
 	"github.com/anishathalye/porcupine"
 
 	"github.com/ozontech/seq-db/cache"
+	"github.com/ozontech/seq-db/fracmanager"
 	"github.com/ozontech/seq-db/verifsim"
 )
 
@@ -30,6 +31,13 @@ type Case struct {
 	Property  string   `json:"property"`
 	Seed      uint64   `json:"seed"`
 	SizeLimit uint64   `json:"size_limit"`
+	// the cleaner comes from the store's wiring: the configuration (cache size, fraction size, optionally an
+	// explicit sort cache size below 90% of the cache) goes through fracmanager.FillConfigWithDefault, and
+	// fracmanager.NewCacheMaintainer splits the result over seven cleaners; the run uses cleaner number Pick
+	Total    uint64 `json:"maintainer_total,omitempty"`
+	Sort     uint64 `json:"maintainer_sort,omitempty"` // 0 = derived from FracSize
+	FracSize uint64 `json:"maintainer_frac_size,omitempty"`
+	Pick     int    `json:"maintainer_pick,omitempty"`
 	NCaches   int      `json:"ncaches"`
 	Callers   [][]Op   `json:"clients"`
 	Cleaner   []Op     `json:"cleaner"`
@@ -143,6 +151,30 @@ func (r *runner) newCache() {
 
 func (r *runner) script() {
 	r.cl = cache.NewCleaner(r.c.SizeLimit, nil)
+	if r.c.Total > 0 {
+		cfg := fracmanager.FillConfigWithDefault(&fracmanager.Config{CacheSize: r.c.Total, SortCacheSize: r.c.Sort, FracSize: r.c.FracSize, TotalSize: 1 << 40})
+		cm := fracmanager.NewCacheMaintainer(cfg.CacheSize, cfg.SortCacheSize, nil)
+		cleaners, labels := cm.VerifCleaners()
+		var sum uint64
+		for i, cl := range cleaners {
+			if sum+cl.SizeLimit() < sum || cl.SizeLimit() > r.c.Total {
+				r.violate("limit_config", "cache size %d, fraction size %d, sort cache %d (0 = derived: %d) are configured, the cleaner of %q gets the limit %d", r.c.Total, r.c.FracSize, r.c.Sort, cfg.SortCacheSize, labels[i], cl.SizeLimit())
+				return
+			}
+			sum += cl.SizeLimit()
+			if cl.SizeLimit() == 0 {
+				r.violate("limit_config", "cache size %d, fraction size %d, sort cache %d (0 = derived: %d) are configured, the cleaner of %q gets no limit at all", r.c.Total, r.c.FracSize, r.c.Sort, cfg.SortCacheSize, labels[i])
+				return
+			}
+		}
+		if sum > r.c.Total {
+			r.violate("limit_config", "cache size %d, fraction size %d, sort cache %d (0 = derived: %d) are configured, the limits of the cleaners sum to %d", r.c.Total, r.c.FracSize, r.c.Sort, cfg.SortCacheSize, sum)
+			return
+		}
+		r.cl = cleaners[r.c.Pick%len(cleaners)]
+		r.c.SizeLimit = r.cl.SizeLimit()
+		r.s.Probe("cleaner_from_maintainer")
+	}
 	for i := 0; i < r.c.NCaches; i++ {
 		r.newCache()
 	}
